@@ -34,9 +34,6 @@ Definition dy_norm (m e : Z) : dy :=
   | Zneg p => let '(q, e') := pos_strip p e in Dy (Zneg q) e'
   end.
 
-Definition dy_eqb (a b : dy) : bool :=
-  match a, b with Dy m1 e1, Dy m2 e2 => (m1 =? m2) && (e1 =? e2) end.
-
 (* exact comparison of m1*2^e1 with m2*2^e2 *)
 Definition dy_cmp (a b : dy) : comparison :=
   match a, b with
@@ -44,6 +41,8 @@ Definition dy_cmp (a b : dy) : comparison :=
       let e := Z.min e1 e2 in
       Z.compare (m1 * 2 ^ (e1 - e)) (m2 * 2 ^ (e2 - e))
   end.
+(* Go's == on float64: numeric equality (no canonical-form assumption needed) *)
+Definition dy_eqb (a b : dy) : bool := match dy_cmp a b with Eq => true | _ => false end.
 
 (* truncation toward zero, then Go's int(float64) on amd64 *)
 Definition dy_trunc (a : dy) : Z :=
